@@ -53,6 +53,21 @@ pub enum Point {
     },
     /// `handle_commands` is done (the reporter, if any, has been called).
     CycleEnd,
+    /// Fired right after `BeforeProcess`: what each submitted span set of the batch consists of.
+    Batch { sets: Vec<BatchSet> },
+    /// The batch has been processed; `report()` is called right after. `active` is what the
+    /// collector retains per trace at this moment.
+    AfterProcess { active: Vec<ActiveStats> },
+}
+
+/// One `SubmitSpans` command of a batch, reduced to what the collector's processing depends on.
+#[derive(Debug, Clone, Default)]
+pub struct BatchSet {
+    /// `(collect_id, trace_id, parent_id)` of every collect token item.
+    pub items: Vec<(usize, u128, u64)>,
+    /// `(id, parent_id, kind, properties)` of every raw span; kind 0 = span, 1 = event,
+    /// 2 = properties. A single thread-safe span takes its parent from the token item.
+    pub raws: Vec<(u64, u64, u8, usize)>,
 }
 
 type Hook = Arc<dyn Fn(&Point) + Send + Sync>;
